@@ -370,6 +370,9 @@ func genReqs(t *rapid.T, c Case, n int, vocab []string) []Req {
 			continue
 		}
 		r := Req{Method: genMethod(t, own), Target: kit.BStr(genTarget(t, api, vocab))}
+		if rapid.IntRange(0, 4).Draw(t, "foreign-accept") == 0 {
+			r.Accept = rapid.SampledFrom([]string{"text/csv", "image/png", "application/xml;q=0.5", "text/html, image/*"}).Draw(t, "accept")
+		}
 		if _, err := readRequest(r); err != nil {
 			continue // only request lines net/http can deliver
 		}
@@ -660,6 +663,9 @@ func Classify(c Case) (bool, []string) {
 		if !e.Judged {
 			labels["composite: not judged (outside the positive class)"] = true
 			continue
+		}
+		if r.Accept != "" && e.Winner < 0 {
+			labels["miss with an Accept header that names nothing the API produces"] = true
 		}
 		upper := r.Method == strings.ToUpper(r.Method)
 		if !upper {
